@@ -410,7 +410,14 @@ fn check_case(sh: &mut Shard, mode: &str, class: &str, label: &str, text: &str, 
             if prog.is_some() && sh.args.get("show-rejected").is_some() {
                 sh.note(format!("rejected: {} :: {}", e.lines().next().unwrap_or(""), text.chars().take(200).collect::<String>()));
             }
-            sh.seen("rejection_reasons", e.lines().next().unwrap_or("").chars().take(80).collect::<String>());
+            let first = e.lines().next().unwrap_or("");
+            let reason: String = first.split(" (at ").next().unwrap_or(first).chars().take(80).collect();
+            if class.starts_with("cell|") {
+                sh.count("matrix_cells_rejected_by_compiler", 1);
+                sh.seen("matrix_cells_rejected", format!("{label}: {reason}"));
+            } else {
+                sh.seen("rejection_reasons", reason);
+            }
         }
         Ok(Outcome::Ran(obs)) => {
             sh.count("programs_executed", 1);
@@ -529,6 +536,21 @@ fn compare_with_reference(sh: &mut Shard, p: &Program, trace: &[CycleIn], obs: &
 
 // ------------------------------------------------------------------ matrix cells (C01/C03)
 
+/// (initialiser text, statement that brings the variable to the wanted value): the most negative LINT has no literal form
+fn init_for(name: &str, t: Ty, v: Sv) -> (String, String) {
+    if t == Ty::LInt && v == Sv::I(i64::MIN as i128) {
+        ("LINT#-9223372036854775807".to_string(), format!("{name} := {name} - LINT#1;\n"))
+    } else if t == Ty::ULInt && matches!(v, Sv::I(x) if x > i64::MAX as i128) {
+        // literals above the signed 64-bit range are not accepted: 2 * (2^63 - 1) + 1 = 2^64 - 1, then count down
+        let Sv::I(x) = v else { unreachable!() };
+        let down = u64::MAX as i128 - x;
+        let tail = if down > 0 { format!("{name} := {name} - ULINT#{down};\n") } else { String::new() };
+        ("ULINT#9223372036854775807".to_string(), format!("{name} := {name} * ULINT#2 + ULINT#1;\n{tail}"))
+    } else {
+        (gen::lit_text(t, v), String::new())
+    }
+}
+
 fn matrix_cells(rng: &mut Rng, shard: usize, nshards: usize, budget: usize) -> Vec<(String, String, String)> {
     // (label, feature string, program text): single-feature programs, operators x types x boundary operands x context
     let mut cells = Vec::new();
@@ -564,8 +586,25 @@ fn matrix_cells(rng: &mut Rng, shard: usize, nshards: usize, budget: usize) -> V
                             continue;
                         }
                         let feat = format!("matrix|{}{}", if mixed { "mixed-signedness|" } else { "" }, if op == gen::BinOp::Pow { "pow" } else { "arith" });
-                        let text = format!("PROGRAM Main\nVAR\n  a : {} := {};\n  b : {} := {};\n  r : {};\nEND_VAR\nr := a {} b;\nEND_PROGRAM\n", a.name(), gen::lit_text(a, va), b.name(), gen::lit_text(b, vb), rt.name(), op.text());
-                        sampled.push((format!("{} {} {}", a.name(), op.text(), b.name()), feat, text));
+                        let ((ia, pa), (ib, pb)) = (init_for("a", a, va), init_for("b", b, vb));
+                        let text = format!("PROGRAM Main\nVAR\n  a : {} := {ia};\n  b : {} := {ib};\n  r : {};\nEND_VAR\n{pa}{pb}r := a {} b;\nEND_PROGRAM\n", a.name(), b.name(), rt.name(), op.text());
+                        // same-type operand pairs (all the type-limit corners: min / -1, min * -1, max + 1 ...) always run
+                        if a == b {
+                            cells.push((format!("{} {} {}", a.name(), op.text(), b.name()), feat, text));
+                            if a.is_int() && matches!(op, gen::BinOp::Add | gen::BinOp::Sub | gen::BinOp::Mul | gen::BinOp::Div) {
+                                // the function form of the same operation
+                                let f = match op {
+                                    gen::BinOp::Add => "ADD",
+                                    gen::BinOp::Sub => "SUB",
+                                    gen::BinOp::Mul => "MUL",
+                                    _ => "DIV",
+                                };
+                                let text = format!("PROGRAM Main\nVAR\n  a : {} := {ia};\n  b : {} := {ib};\n  r : {};\nEND_VAR\n{pa}{pb}r := {f}(a, b);\nEND_PROGRAM\n", a.name(), b.name(), rt.name());
+                                cells.push((format!("{f}({}, {})", a.name(), b.name()), "matrix|arith-function".into(), text));
+                            }
+                        } else {
+                            sampled.push((format!("{} {} {}", a.name(), op.text(), b.name()), feat, text));
+                        }
                     }
                 }
             }
@@ -578,7 +617,8 @@ fn matrix_cells(rng: &mut Rng, shard: usize, nshards: usize, budget: usize) -> V
             if n % nshards != shard {
                 continue;
             }
-            cells.push((format!("neg {}", t.name()), "matrix|neg".into(), format!("PROGRAM Main\nVAR\n  a : {} := {};\n  r : {};\nEND_VAR\nr := -a;\nEND_PROGRAM\n", t.name(), gen::lit_text(*t, v), t.name())));
+            let (ia, pa) = init_for("a", *t, v);
+            cells.push((format!("neg {}", t.name()), "matrix|neg".into(), format!("PROGRAM Main\nVAR\n  a : {} := {ia};\n  r : {};\nEND_VAR\n{pa}r := -a;\nEND_PROGRAM\n", t.name(), t.name())));
         }
     }
     // FOR over every integer control type at the type limits, up and down
@@ -657,8 +697,8 @@ fn matrix_cells(rng: &mut Rng, shard: usize, nshards: usize, budget: usize) -> V
         ("pow negative int exponent", "switch|pow-negative-exponent", "PROGRAM Main\nVAR\n  a : INT := INT#2;\n  b : INT := INT#-1;\n  r : INT;\nEND_VAR\nr := a ** b;\nEND_PROGRAM\n".into()),
         ("recursion", "switch|recursion", "FUNCTION R : DINT\nVAR_INPUT n : DINT; END_VAR\nIF n <= DINT#0 THEN\n  R := DINT#0;\nELSE\n  R := R(n - DINT#1) + DINT#1;\nEND_IF;\nEND_FUNCTION\nPROGRAM Main\nVAR\n  x : DINT;\nEND_VAR\nx := R(DINT#50);\nEND_PROGRAM\n".into()),
         ("exit in nested if", "switch|none", "PROGRAM Main\nVAR\n  i : DINT;\n  n : DINT;\nEND_VAR\nFOR i := DINT#0 TO DINT#9 DO\n  IF i > DINT#3 THEN\n    IF TRUE THEN EXIT; END_IF;\n  END_IF;\n  n := n + DINT#1;\nEND_FOR;\nEND_PROGRAM\n".into()),
-        ("time arithmetic", "switch|time-arith", "PROGRAM Main\nVAR\n  t : TIME := T#1s;\n  u : TIME;\n  b : BOOL;\nEND_VAR\nu := t + T#5ms;\nu := u - t;\nb := u < t;\nEND_PROGRAM\n".into()),
-        ("bit ops", "switch|bit-ops", "PROGRAM Main\nVAR\n  w : WORD := WORD#16#F0F0;\n  v : WORD;\nEND_VAR\nv := w AND WORD#16#00FF;\nv := NOT w;\nEND_PROGRAM\n".into()),
+        ("time arithmetic", "switch|time-arith", "PROGRAM Main\nVAR\n  t : TIME := T#1s;\n  u : TIME;\n  b : BOOL;\nEND_VAR\nu := ADD_TIME(t, T#5ms);\nu := SUB_TIME(u, t);\nb := u < t;\nu := MUL_TIME(t, INT#3);\nEND_PROGRAM\n".into()),
+        ("bit ops", "switch|bit-ops", "PROGRAM Main\nVAR\n  w : WORD := WORD#16#F0F0;\n  v : WORD;\nEND_VAR\nv := SHL(w, 3);\nv := ROR(v, 5);\nEND_PROGRAM\n".into()),
         ("string ops", "switch|strings", "PROGRAM Main\nVAR\n  s : STRING := 'abc';\n  t : STRING;\n  n : INT;\nEND_VAR\nt := CONCAT(s, 'def');\nn := LEN(t);\nEND_PROGRAM\n".into()),
     ];
     for (l, f, t) in specials {
